@@ -256,6 +256,7 @@ def dynamic_segments(F, R):
 
 
 def check(F, R, tier):
+    lib.cas_loops_fresh(R, F, r'bump_allocator::BumpAllocator as .*Allocate', 1, 'a decision computed once before the loop is stale after the first failed CAS')
     bucket_allocator(F, R)
     offset_packing(F, R)
     shm_pool(F, R)
